@@ -7,6 +7,7 @@
  * Plain harness, fixed arrays: buffer of VF_CAP bytes with symbolic capacity msgbuf_size <= VF_CAP,
  * names <= VF_NAME bytes and RDATA <= VF_RDATA bytes of symbolic length and content.
  * -DVF_RT_QUESTION: header + question;  -DVF_RT_RR: header + record (ANCOUNT = 1);
+ * -DVF_RT_OPT: header + dns_msg_optrr_add (ARCOUNT = 1);
  * -DVF_RT_PART=1|2|3 selects which of (1)+(4), (2), (3) is asserted (one solver run each). */
 #define VF_DNS_MEMCPY_LOOP
 #include "contracts/dns.h"
@@ -125,8 +126,51 @@ void harness(void) {
 	VF_ASSERT(d2 == junk.b + off + 10, "(3) parse back: RDATA pointer");
 	VF_ASSERT(k >= data_size || ((uint8_t *)d2)[k] == rdata.b[k], "(3) parse back: RDATA bytes");
 #endif
+#elif defined(VF_RT_OPT)
+	/* EDNS0 OPT pseudo-RR (RFC 2671 4.3): root name, TYPE 41, CLASS = UDP payload size,
+	 * TTL = ext-rcode, version, flags, RDLENGTH, RDATA; counted in ARCOUNT */
+	VF_NONDET(uint16_t, udp);
+	VF_NONDET(uint8_t, version);
+	VF_NONDET(uint8_t, ex_rcode);
+	VF_NONDET(uint16_t, ex_flags);
+	VF_NONDET(uint16_t, data_size);
+	VF_ASSUME(data_size <= VF_RDATA);
+	(void)wlen; (void)name_len;
+	r = dns_msg_optrr_add(hdr, size, msgbuf_size, udp, version, ex_rcode, ex_flags, data_size, rdata.b, &size2);
+	VF_ASSERT((r == 0) == (12 + 11 + data_size <= msgbuf_size) && (r == 0 || r == EOVERFLOW), "optrr_add: accepted iff it fits");
+	VF_ASSERT(size2 == 12 + 11 + data_size, "optrr_add: reported size = RFC size");
+	if (r != 0)
+		goto done;
+	dns_hdr_ar_inc(hdr, 1);
+	spec[11] = 1;				/* ARCOUNT = 1 */
+	spec[12] = 0;				/* root name */
+	vf_dns_spec_be16(&spec[13], 41);
+	vf_dns_spec_be16(&spec[15], udp);
+	spec[17] = ex_rcode;			/* RFC 2671 4.6: extended RCODE, VERSION, Z */
+	spec[18] = version;
+	memcpy(&spec[19], &ex_flags, 2);	/* caller supplies the flags in wire order */
+	vf_dns_spec_be16(&spec[21], data_size);
+	for (n = 0; n < data_size; n ++)
+		spec[23 + n] = rdata.b[n];
+#if VF_RT_PART == 1
+	VF_ASSERT(k >= size2 || junk.b[k] == spec[k], "(1) message byte == RFC 1035 / RFC 2671 encoding");
+#elif VF_RT_PART == 2
+	size_t qd = 0, an = 0, ns = 0, ar = 0, cnt = 9, real = 0;
+	VF_ASSERT(dns_msg_info_get(hdr, size2, &qd, &an, &ns, &ar, &cnt, &real) == 0 &&
+	    qd == 12 && an == 12 && ns == 12 && ar == 12 && cnt == 1 && real == size2, "(2) info_get: validates, offsets, count and size as built");
 #else
-#error "select VF_RT_QUESTION or VF_RT_RR"
+	uint16_t t2 = 0, c2 = 0, ds2 = 0;
+	uint32_t ttl2 = 0;
+	void *d2 = NULL;
+	size_t blen = sizeof(back), rs = 0;
+	r = dns_msg_rr_get_data(hdr, size2, 12, back, &blen, &t2, &c2, &ttl2, &ds2, &d2, &rs);
+	VF_ASSERT(r == 0 && t2 == 41 && c2 == udp && ds2 == data_size && rs == 11 + data_size && blen == 0, "(3) parse back: root name, type OPT, class = payload size, rdlength, size");
+	VF_ASSERT(((uint8_t *)&ttl2)[0] == spec[17] && ((uint8_t *)&ttl2)[1] == spec[18] && ((uint8_t *)&ttl2)[2] == spec[19] && ((uint8_t *)&ttl2)[3] == spec[20],
+	    "(3) parse back: the TTL field of an OPT record is returned as its four wire bytes");
+	VF_ASSERT(d2 == junk.b + 23 && (k >= data_size || ((uint8_t *)d2)[k] == rdata.b[k]), "(3) parse back: RDATA");
+#endif
+#else
+#error "select VF_RT_QUESTION, VF_RT_RR or VF_RT_OPT"
 #endif
 done:
 	VF_CANARY("dns round trip harness end");
